@@ -25,6 +25,9 @@ def replay(pid, path):
     with open(path) as f:
         r = json.load(f)
     print("replaying", r.get("what", "")[:300])
-    if r.get("replay", {}).get("kind") == "prio-v2-replay":
+    kind = r.get("replay", {}).get("kind")
+    if kind == "prio-v2-replay":
         return prio.replay_file(pid, r)
+    if kind in ("prio-v1-run", "prio-simple-run"):
+        return prio.replay_run(pid, r)
     return CHECKS[pid]("quick")
